@@ -425,6 +425,7 @@ Definition eval_935 (s : text) : result verdict := is_xtag_limit s Gas.
 Definition eval_93x (k : N) (s : text) : result verdict :=
   if (k =? 931)%N then eval_931 s else if (k =? 932)%N then eval_932 s else if (k =? 933)%N then eval_933 s
   else if (k =? 934)%N then eval_934 s else if (k =? 935)%N then eval_935 s else Exn AttrErr.
+Definition fc_keys : list N := [931; 932; 933; 934; 935]%N.
 
 (* ------------------------------------------------------------------ specification side of C20 *)
 (* EU rule (directive 2000/84/EC and its predecessors since 1996): summer time from 01:00 UTC on the last Sunday of
